@@ -190,6 +190,67 @@ var condSites = []condSite{
 		subst: map[string]string{"param.Period": "period", "param.Level": "level"}, params: "(period level : N)"},
 }
 
+// sourceFuture evaluates the expiry given to admin-assigned tokens from the source text.
+func sourceFuture(fset *token.FileSet, af *ast.File) (val uint32, desc, why string) {
+	var args []ast.Expr
+	for _, d := range af.Decls {
+		gd, ok := d.(*ast.GenDecl)
+		if !ok || gd.Tok != token.VAR {
+			continue
+		}
+		for _, sp := range gd.Specs {
+			vs := sp.(*ast.ValueSpec)
+			for i, n := range vs.Names {
+				if n.Name == "future" && i < len(vs.Values) {
+					if ce, ok := vs.Values[i].(*ast.CallExpr); ok && pr(fset, ce.Fun) == "time.Date" {
+						args = ce.Args
+					}
+				}
+			}
+		}
+	}
+	if len(args) != 8 || pr(fset, args[7]) != "time.UTC" {
+		return 0, "", "var future = time.Date(..., time.UTC) not found"
+	}
+	var v [7]int
+	for i := 0; i < 7; i++ {
+		x, ok := intConst(args[i])
+		if !ok {
+			return 0, "", "non-literal argument of time.Date: " + pr(fset, args[i])
+		}
+		v[i] = int(x)
+	}
+	fd := findFn(af, "assignToRole", "")
+	rhs := ""
+	if fd != nil {
+		ast.Inspect(fd.Body, func(n ast.Node) bool {
+			if as, ok := n.(*ast.AssignStmt); ok && len(as.Lhs) == 1 && len(as.Rhs) == 1 && pr(fset, as.Lhs[0]) == "token.expireTime" {
+				rhs = pr(fset, as.Rhs[0])
+			}
+			return true
+		})
+	}
+	if rhs != "uint32(future.Unix())" {
+		return 0, "", "assignToRole: token.expireTime = uint32(future.Unix()) not found, got " + rhs
+	}
+	t := time.Date(v[0], time.Month(v[1]), v[2], v[3], v[4], v[5], v[6], time.UTC)
+	return uint32(t.Unix()), fmt.Sprintf("auth.go: future = %s; assignToRole: token.expireTime = %s", pr(fset, &ast.CallExpr{Fun: ast.NewIdent("time.Date"), Args: args}), rhs), ""
+}
+
+// FutureFromSource is what the driver's oracle uses as the end of validity of admin-assigned tokens.
+func futureFromSource(repo string) (uint32, error) {
+	fset := token.NewFileSet()
+	f, err := parser.ParseFile(fset, filepath.Join(repo, authFile), nil, 0)
+	if err != nil {
+		return 0, err
+	}
+	v, _, why := sourceFuture(fset, f)
+	if why != "" {
+		return 0, fmt.Errorf("%s", why)
+	}
+	return v, nil
+}
+
 func produceAuthConsts(repo string) ([]byte, []string) {
 	var b bytes.Buffer
 	var errs []string
@@ -211,54 +272,11 @@ func produceAuthConsts(repo string) ([]byte, []string) {
 	af := files[authFile]
 
 	// AUTH_FUTURE: var future = time.Date(y, m, d, h, mi, s, ns, time.UTC); token.expireTime = uint32(future.Unix())
-	func() {
-		var args []ast.Expr
-		for _, d := range af.Decls {
-			gd, ok := d.(*ast.GenDecl)
-			if !ok || gd.Tok != token.VAR {
-				continue
-			}
-			for _, sp := range gd.Specs {
-				vs := sp.(*ast.ValueSpec)
-				for i, n := range vs.Names {
-					if n.Name == "future" && i < len(vs.Values) {
-						if ce, ok := vs.Values[i].(*ast.CallExpr); ok && pr(fset, ce.Fun) == "time.Date" {
-							args = ce.Args
-						}
-					}
-				}
-			}
-		}
-		if len(args) != 8 || pr(fset, args[7]) != "time.UTC" {
-			broken("AUTH_FUTURE", "var future = time.Date(..., time.UTC) not found")
-			return
-		}
-		var v [7]int
-		for i := 0; i < 7; i++ {
-			x, ok := intConst(args[i])
-			if !ok {
-				broken("AUTH_FUTURE", "non-literal argument of time.Date: "+pr(fset, args[i]))
-				return
-			}
-			v[i] = int(x)
-		}
-		fd := findFn(af, "assignToRole", "")
-		rhs := ""
-		if fd != nil {
-			ast.Inspect(fd.Body, func(n ast.Node) bool {
-				if as, ok := n.(*ast.AssignStmt); ok && len(as.Lhs) == 1 && len(as.Rhs) == 1 && pr(fset, as.Lhs[0]) == "token.expireTime" {
-					rhs = pr(fset, as.Rhs[0])
-				}
-				return true
-			})
-		}
-		if rhs != "uint32(future.Unix())" {
-			broken("AUTH_FUTURE", "assignToRole: token.expireTime = uint32(future.Unix()) not found, got "+rhs)
-			return
-		}
-		t := time.Date(v[0], time.Month(v[1]), v[2], v[3], v[4], v[5], v[6], time.UTC)
-		fmt.Fprintf(&b, "(* auth.go: future = %s; assignToRole: token.expireTime = %s *)\nDefinition AUTH_FUTURE : N := %d.\n", pr(fset, &ast.CallExpr{Fun: ast.NewIdent("time.Date"), Args: args}), rhs, uint32(t.Unix()))
-	}()
+	if v, desc, why := sourceFuture(fset, af); why != "" {
+		broken("AUTH_FUTURE", why)
+	} else {
+		fmt.Fprintf(&b, "(* %s *)\nDefinition AUTH_FUTURE : N := %d.\n", desc, v)
+	}
 
 	// ADMIN_TOKEN_LEVEL: assignToRole: token.level = <lit>
 	func() {
